@@ -130,7 +130,10 @@ func runC01(c *Ctx) {
 	}
 	c.WriteCoqSharded("cases_C01", "From Verif Require Import Base Repo RunRepo.\nOpen Scope N_scope.\n", "hcase", items, "repo_mismatches", 12)
 	c.Rep.Cases = len(cases)
-	c.Rep.Rule = "real handshakes through VerifyClientCertificate: source {CDP, crl_urls, crl_files} x encoding {DER, PEM-LF, PEM-CRLF} x entries {1,2,3,40,400(,5000,50000)} x storage, with serial width 1..20, entry extensions, v1/v2, mode {unset, prefer_ocsp, prefer_crl, crl_only} and OCSP answer {none, good, unavailable} rotating; listed serial probed at first / last / middle / entries straddling each 4096-byte boundary; for the configured sources the certificate's own CDP rotates over {none, ldap-only, connection refused, another (empty) list}; control = an unlisted certificate is accepted (under crl_cdp_strict where the CDP is usable, so the list is in force); distinct by the full tuple"
+	// a list in force keeps rejecting its serials WHILE it is being refreshed (observers concurrent with refreshes, in a
+	// child process; shared with C08) and across a key rollover
+	c08Concurrent(c)
+	c.Rep.Rule = "real handshakes through VerifyClientCertificate: source {CDP, crl_urls, crl_files} x encoding {DER, PEM-LF, PEM-CRLF} x entries {1,2,3,40,400(,5000,50000)} x storage, with serial width 1..20, entry extensions, v1/v2, mode {unset, prefer_ocsp, prefer_crl, crl_only} and OCSP answer {none, good, unavailable} rotating; listed serial probed at first / last / middle / entries straddling each 4096-byte boundary; for the configured sources the certificate's own CDP rotates over {none, ldap-only, connection refused, another (empty) list}; control = an unlisted certificate is accepted (under crl_cdp_strict where the CDP is usable, so the list is in force); distinct by the full tuple; plus 16 observers shaking hands during 36 refreshes (a serial on every version is always rejected) on both backends"
 }
 
 func c01Run(c *Ctx, k int, cs *c01Case, r *rand.Rand) {
